@@ -661,10 +661,21 @@ impl<E: Effect> Executor<E> {
 
         self.processes.insert(id, process);
 
-        // Inject heap data and populate locals with captures
+        // Inject heap data once for all captures and the argument (their heap indices share the
+        // single `heap_data` index space), then populate locals with the captures.
         let captures_count = captures.len();
-        for value in captures {
-            let injected = self.inject_heap_data(value, &heap_data)?;
+        let mut all_values = captures;
+        all_values.push(argument);
+        let injected_all =
+            self.inject_heap_data(Value::tuple(crate::types::NIL, all_values), &heap_data)?;
+        let Value::Tuple(_, injected_values) = injected_all else {
+            unreachable!("inject_heap_data preserves the value's shape")
+        };
+        let mut injected_values = (*injected_values).clone();
+        let injected_arg = injected_values
+            .pop()
+            .expect("argument was appended after the captures");
+        for injected in injected_values {
             // Injected into rooted storage (the new frame's locals).
             self.retain(&injected);
             let process = self
@@ -674,7 +685,6 @@ impl<E: Effect> Executor<E> {
         }
 
         // Push argument onto stack
-        let injected_arg = self.inject_heap_data(argument, &heap_data)?;
         self.retain(&injected_arg);
         let process = self
             .get_process_mut(id)
